@@ -9,6 +9,7 @@ struct Rewriter {
   original_functions: HashMap<mir::FunctionName, hir::Function>,
   used_string_names: HashSet<PStr>,
   specialized_type_definition_names: HashSet<mir::TypeNameId>,
+  specialized_enum_type_definition_names: HashSet<mir::TypeNameId>,
   specialized_function_names: HashSet<mir::FunctionName>,
   specialized_closure_definitions: Vec<mir::ClosureTypeDefinition>,
   specialized_type_definitions: HashMap<mir::TypeNameId, mir::TypeDefinition>,
@@ -578,6 +579,7 @@ impl Rewriter {
               .collect_vec(),
           ),
           hir::TypeDefinitionMappings::Enum(hir_variants) => {
+            self.specialized_enum_type_definition_names.insert(mir_type_name);
             let mut mir_variants = Vec::with_capacity(hir_variants.len());
             let mut permit_unboxed_optimization = true;
             let mut already_unused_boxed_optimization = None;
@@ -637,8 +639,11 @@ impl Rewriter {
       mir::Type::Int32 | mir::Type::Int31 => false,
       mir::Type::Id(type_id) => {
         let Some(type_def) = self.specialized_type_definitions.get(type_id) else {
-          // Recursive type currently being processed - must be heap-allocated (pointer).
-          return self.specialized_type_definition_names.contains(type_id);
+          // Recursive type currently being processed - a struct must be heap-allocated (pointer),
+          // but the variants of an enum that is still being processed (including the very enum we
+          // are deciding for) may end up as int or unboxed, so we have to deopt like below.
+          return self.specialized_type_definition_names.contains(type_id)
+            && !self.specialized_enum_type_definition_names.contains(type_id);
         };
         match &type_def.mappings {
           // Structs are always pointers.
@@ -706,6 +711,7 @@ pub(super) fn perform_generics_specialization(
       .collect(),
     used_string_names: HashSet::new(),
     specialized_type_definition_names: HashSet::new(),
+    specialized_enum_type_definition_names: HashSet::new(),
     specialized_function_names: HashSet::new(),
     specialized_closure_definitions: Vec::new(),
     specialized_type_definitions: HashMap::new(),
